@@ -477,7 +477,20 @@ pub fn repeat_game_from(rng: &mut Rng, force_startpos: Option<bool>) -> Game {
     let mut start = if startpos {
         Pos::start()
     } else {
-        match rng.below(6) {
+        match rng.below(8) {
+            // a double step has just been played and can be captured en passant (also only from the a- or
+            // h-file): once the capture is declined the same placement recurs WITHOUT the right — a different
+            // position that a hash careless about the en-passant square counts as an occurrence
+            6 | 7 => {
+                let mut p = gen::g_ep(rng);
+                for _ in 0..40 {
+                    if p.ep_capture_legal() && p.legal_moves().len() >= 3 {
+                        break;
+                    }
+                    p = gen::g_ep(rng);
+                }
+                p
+            }
             0 => gen::g_small(rng, 8),
             1 => gen::corpus_pos(rng.below(gen::CORPUS.len() as u64) as usize),
             // kings and rooks at home with castling rights: shuffling them out and back makes the
@@ -692,6 +705,13 @@ fn c09_check_successors(engine: &mut Flounder, g: &Game, st: &mut Stats, case: &
             let same_placement = g.positions.iter().filter(|p| p.sq == s.sq && p.stm == s.stm).count() as u32;
             if same_placement > strict {
                 st.bump("placement_recurs_with_other_rights_or_ep");
+                if g.positions.iter().any(|p| p.sq == s.sq && p.stm == s.stm && p.ep != oracle::NO_EP && p.ep_capture_legal() && s.ep == oracle::NO_EP) {
+                    st.bump("placement_recurs_after_a_capturable_en_passant_right_lapsed");
+                    let f = oracle::file_of(g.positions.iter().find(|p| p.sq == s.sq && p.stm == s.stm && p.ep != oracle::NO_EP).map(|p| p.ep).unwrap_or(0));
+                    if f == 1 || f == 6 {
+                        st.bump("placement_recurs_after_a_lapsed_en_passant_right_on_the_b_or_g_file");
+                    }
+                }
             }
         }
         st.bump(match strict {
@@ -725,6 +745,84 @@ fn c09_check_successors(engine: &mut Flounder, g: &Game, st: &mut Stats, case: &
     }
 }
 
+/// A history in which a double step that can be captured en passant (half of the time only from the a- or
+/// h-file) is declined, both sides shuffle a piece out and back, and the same placement recurs WITHOUT the
+/// en-passant right — once, twice or more, the game ending zero to three plies short of the next return.
+/// The position with the right and the one without it are different positions (the capture was possible),
+/// so the returns must be counted from the first position WITHOUT the right; a hash that drops the
+/// en-passant square (for some files, for some capturers) counts one occurrence too many.
+pub fn ep_lapse_game(rng: &mut Rng) -> Option<Game> {
+    for _ in 0..80 {
+        let p0 = gen::g_ep(rng);
+        if !p0.ep_capture_legal() || p0.in_check() {
+            continue;
+        }
+        if rng.chance(1, 2) {
+            // only from the rook file: the pushed pawn stands on the b- or g-file and the only capturer on a / h
+            let f = oracle::file_of(p0.ep);
+            let r = if p0.stm == oracle::WHITE { 4 } else { 3 };
+            let mine = oracle::pc(p0.stm, oracle::P);
+            let on = |ff: i8| oracle::on_board(ff, r) && p0.sq[oracle::sq(ff, r) as usize] == mine;
+            let ok = (f == 1 && on(0) && !on(2)) || (f == 6 && on(7) && !on(5));
+            if !ok {
+                continue;
+            }
+        }
+        let quiet = |p: &Pos| -> Vec<Mv> {
+            p.legal_moves().into_iter().filter(|m| m.kind == MvKind::Normal && m.promo == 0 && !p.is_capture(m) && oracle::kind(p.sq[m.from as usize]) != oracle::P).collect()
+        };
+        for _ in 0..12 {
+            let xs = quiet(&p0);
+            if xs.is_empty() {
+                break;
+            }
+            let x = *rng.pick(&xs);
+            let p1 = p0.make(&x);
+            let ys = quiet(&p1);
+            if ys.is_empty() {
+                continue;
+            }
+            let y = *rng.pick(&ys);
+            let p2 = p1.make(&y);
+            let Some(xb) = p2.legal_moves().into_iter().find(|m| m.from == x.to && m.to == x.from && m.kind == MvKind::Normal && m.promo == 0) else { continue };
+            let p3 = p2.make(&xb);
+            let Some(yb) = p3.legal_moves().into_iter().find(|m| m.from == y.to && m.to == y.from && m.kind == MvKind::Normal && m.promo == 0) else { continue };
+            let p4 = p3.make(&yb);
+            if p4.sq != p0.sq || p4.stm != p0.stm || p4.castle != p0.castle || p4.ep != oracle::NO_EP {
+                continue;
+            }
+            let cycles = 1 + rng.below(3) as usize;
+            let cut = rng.below(4) as usize;
+            let mut moves = vec![];
+            for _ in 0..cycles {
+                moves.extend([x, y, xb, yb]);
+            }
+            // one more cycle, cut short: the game ends 1..4 plies into it (so the next moves return)
+            moves.extend([x, y, xb, yb].iter().take(4 - cut.min(3) - 1).cloned());
+            let mut start = p0.clone();
+            start.half = rng.range(0, 20) as u32;
+            start.full = rng.range(1, 120) as u32;
+            let mut positions = vec![start.clone()];
+            let mut cur = start.clone();
+            let mut ok = true;
+            for m in moves.iter() {
+                match cur.legal_moves().into_iter().find(|l| l == m) {
+                    Some(l) => cur = cur.make(&l),
+                    None => {
+                        ok = false;
+                        break;
+                    }
+                }
+                positions.push(cur.clone());
+            }
+            if ok {
+                return Some(Game { start, startpos: false, moves, positions });
+            }
+        }
+    }
+    None
+}
+
 fn c09_inprocess(ctx: &Ctx) -> Stats {
     let n = ctx.budget(5000, 200_000);
     parallel(ctx.workers, |w| {
@@ -738,6 +836,14 @@ fn c09_inprocess(ctx: &Ctx) -> Stats {
                 match far_repeat_game(&mut rng) {
                     Some(g) => {
                         st.bump("histories_with_third_occurrence_more_than_100_plies_after_the_second");
+                        g
+                    }
+                    None => repeat_game(&mut rng),
+                }
+            } else if i % 8 == 3 {
+                match ep_lapse_game(&mut rng) {
+                    Some(g) => {
+                        st.bump("histories_in_which_a_capturable_en_passant_right_lapses_and_the_placement_returns");
                         g
                     }
                     None => repeat_game(&mut rng),
@@ -866,7 +972,7 @@ fn c09_blackbox(ctx: &Ctx) -> Stats {
         let target = n / workers as u64 + 1;
         while done < target && tries < target * 40 && (done < 3 || !ctx.out_of_time()) {
             tries += 1;
-            let g = repeat_game(&mut rng);
+            let g = if rng.chance(1, 6) { ep_lapse_game(&mut rng).unwrap_or_else(|| repeat_game(&mut rng)) } else { repeat_game(&mut rng) };
             let (want, rule_matters) = match expected_depth1(&g, &mut q) {
                 Some(x) => x,
                 None => continue,
@@ -1196,7 +1302,7 @@ pub fn run_c09(ctx: &Ctx) -> i32 {
         level: "exploration",
         rule: "a case is a game history given with a position command (startpos or FEN start, 2..40 moves that shuffle pieces out and back so that candidate successor positions have occurred 0, 1, 2 or more times, sometimes the initial position), optionally preceded on the same engine by another position command (an extension, a prefix, an unrelated game). For every successor S of the current position the engine's repetition answer (hook) must be 'draw' when S already occurred twice (identical placement, side, rights, ep target) and 'not a draw' when it occurred fewer than twice even under the FIDE reading of 'same position'; in between either answer is accepted. Inside real searches (hook: log of how every main-search node was answered): on a fresh engine, after the position command, one search of 4..7 iterations bounded by a node deadline; every node below the root whose position already occurred twice in the game (root included) must have been answered as a repetition draw — not from the table, not searched — and no node seen fewer than twice may be. In a third of these cases another game of the same length ending in the same position (another road: other occurrence counts) is set up and searched on the same engine first. End-to-end on the real binary: after 'ucinewgame', the position command and 'go depth 1', the printed depth-1 score must equal max over moves of (0 for a third occurrence, else minus the engine's own quiescence value). Distinct by command text; non-trivial when some successor is a third occurrence",
         assumptions: vec!["the reference rules implementation is correct (perft self-test at every run)".into(), "the end-to-end expectation uses the engine's own quiescence search (hook build of the same sources) for the values of non-repeating moves".into()],
-        required: if ctx.replay.is_some() { vec![] } else { vec!["successor_seen_0_times", "successor_seen_1_time", "successor_seen_2_times", "successor_seen_3_or_more_times", "third_occurrence_of_the_initial_position", "earlier_command_extends_the_game", "earlier_command_is_a_prefix", "earlier_command_unrelated_game", "blackbox_games_where_the_rule_changes_the_score", "histories_with_third_occurrence_more_than_100_plies_after_the_second", "placement_recurs_with_other_rights_or_ep", "insearch_nodes_answered_as_repetition_draw", "insearch_repetition_draws_two_or_more_plies_below_the_root", "insearch_repetition_draws_on_return_to_the_root_position", "insearch_nodes_seen_once_before_and_rightly_not_drawn", "insearch_after_an_equal_length_game_ending_in_the_same_position"] },
+        required: if ctx.replay.is_some() { vec![] } else { vec!["successor_seen_0_times", "successor_seen_1_time", "successor_seen_2_times", "successor_seen_3_or_more_times", "third_occurrence_of_the_initial_position", "earlier_command_extends_the_game", "earlier_command_is_a_prefix", "earlier_command_unrelated_game", "blackbox_games_where_the_rule_changes_the_score", "histories_with_third_occurrence_more_than_100_plies_after_the_second", "placement_recurs_with_other_rights_or_ep", "placement_recurs_after_a_capturable_en_passant_right_lapsed", "placement_recurs_after_a_lapsed_en_passant_right_on_the_b_or_g_file", "histories_in_which_a_capturable_en_passant_right_lapses_and_the_placement_returns", "insearch_nodes_answered_as_repetition_draw", "insearch_repetition_draws_two_or_more_plies_below_the_root", "insearch_repetition_draws_on_return_to_the_root_position", "insearch_nodes_seen_once_before_and_rightly_not_drawn", "insearch_after_an_equal_length_game_ending_in_the_same_position"] },
         exhaustive: false,
         extra: vec![],
     };
